@@ -130,7 +130,7 @@ func mutateAll[T any](root *T, otherZone *time.Location, skip func(path string) 
 		case reflect.Int, reflect.Int8, reflect.Int16, reflect.Int32, reflect.Int64,
 			reflect.Uint, reflect.Uint8, reflect.Uint16, reflect.Uint32, reflect.Uint64,
 			reflect.Float32, reflect.Float64:
-			points = append(points, point{path, "num+1"}, point{path, "num-zero-toggle"}, point{path, "num-next"}, point{path, "num-negate"})
+			points = append(points, point{path, "num+1"}, point{path, "num-zero-toggle"}, point{path, "num-next"}, point{path, "num-negate"}, point{path, "num+360"})
 		}
 	}
 	walk(reflect.ValueOf(root).Elem(), "", 0)
@@ -262,6 +262,19 @@ func applyMutation(v reflect.Value, path, target, kind string, otherZone *time.L
 					return false
 				}
 				v.SetUint(v.Uint() + 1<<32)
+			default:
+				return false
+			}
+			return true
+		case "num+360":
+			// a full turn / a wrap of the longitude: equal "as an angle", different as data
+			switch v.Kind() {
+			case reflect.Float32, reflect.Float64:
+				f := v.Float()
+				if math.IsNaN(f) || math.IsInf(f, 0) || f+360 == f {
+					return false
+				}
+				v.SetFloat(f + 360)
 			default:
 				return false
 			}
